@@ -198,7 +198,8 @@ func (d *Document) SetPageSettings(settings *PageSettings) error {
 			LinePitch: strconv.Itoa(settings.DocGridLinePitch),
 		}
 
-		if settings.DocGridCharSpace > 0 {
+		// 0 即属性缺省值；负值（压缩字符间距，中日韩文档中常见）同样必须写回
+		if settings.DocGridCharSpace != 0 {
 			sectPr.DocGrid.CharSpace = strconv.Itoa(settings.DocGridCharSpace)
 		}
 	}
